@@ -305,6 +305,11 @@ package sbom
 
 // ---- traversal ----
 
+// NodeGraph: only the frame condition is under contract. Its shape postconditions
+// (drafted: absent/shape/root/subset/unique with visited-set invariants) need
+// "no nil entry" of the edge-index buckets in set form to establish
+// cleanEdges' precondition, which in turn needs pairwise distinct bucket
+// arrays in indexEdges' invariant; not done.
 //@ func NodeList.NodeGraph
 //@   props C11
 //@   assigns \nothing
@@ -385,6 +390,7 @@ package sbom
 //@   props C11, C15
 //@   assigns \nothing
 //@   requires validNL(nl)
+//@   ensures [C15:connected:start] (id in result) <==> (id in fieldset(nl.Nodes, Id))
 //@   ensures [C15:connected:index] result != nil && fresh(result) && (forall k string :: (k in result) ==> result[k] != nil && result[k].Id == k && (result[k] in elems(nl.Nodes)))
 
 //@ func NodeList.connectedIndexRecursion
@@ -392,6 +398,8 @@ package sbom
 //@   requires boundaries != nil && connectedNodes != nil
 //@   requires [C15:pre] validNL(nl) && *connectedNodes != nil && (forall k string :: (k in (*connectedNodes)) ==> (*connectedNodes)[k] != nil && (*connectedNodes)[k].Id == k && ((*connectedNodes)[k] in elems(nl.Nodes)))
 //@   assigns connectedNodes.*, (*connectedNodes)[*]
+//@   ensures [C15:connected:monotone] forall k string :: (k in old(keys(*connectedNodes))) ==> (k in *connectedNodes)
+//@   invariant L0: [C15:inv] forall k string :: (k in old(keys(*connectedNodes))) ==> (k in *connectedNodes)
 //@   ensures [C15:connected:index] *connectedNodes == old(*connectedNodes) && (forall k string :: (k in (*connectedNodes)) ==> (*connectedNodes)[k] != nil && (*connectedNodes)[k].Id == k && ((*connectedNodes)[k] in elems(nl.Nodes)))
 //@   invariant L0: [C15:inv] *connectedNodes == old(*connectedNodes) && (forall k string :: (k in (*connectedNodes)) ==> (*connectedNodes)[k] != nil && (*connectedNodes)[k].Id == k && ((*connectedNodes)[k] in elems(nl.Nodes)))
 //@   invariant L0: [C15:inv] siblings != nil && (forall a int :: 0 <= a && a < len(siblings.Nodes) ==> siblings.Nodes[a] != nil && (siblings.Nodes[a] in elems(nl.Nodes)))
